@@ -17,7 +17,7 @@ from typing import List
 from fjv import engines
 from fjv.arena import Arena, Block
 from fjv.core import Check
-from fjv.stl_common import compare, oracle, run_behaviours
+from fjv.stl_common import assemble_blaming, compare, oracle, run_behaviours
 
 HEXV = ["x", "y", "z"]
 BITV = ["p", "q"]
@@ -128,14 +128,16 @@ def gen_val(rng: random.Random, nd: int, base_bits: int, n: int) -> int:
 
 def run_width(chk: Check, fjm_run, w: int, sizes: List[int], count: int, rng: random.Random):
     blocks = io_blocks(rng, sizes)
-    arena = Arena(fjm_run, w, "hex", HEXV + BITV + ERRV, NDH, blocks)
-    for v in BITV:
-        arena.var_kind[v] = "bit"
-        arena.var_nd[v] = NDB
-    arena.var_kind["r"] = "bit"
-    arena.var_nd["r"] = 3
+    def make(bl):
+        a = Arena(fjm_run, w, "hex", HEXV + BITV + ERRV, NDH, bl)
+        for v in BITV:
+            a.var_kind[v] = "bit"
+            a.var_nd[v] = NDB
+        a.var_kind["r"] = "bit"
+        a.var_nd["r"] = 3
+        return a
+    arena, blocks = assemble_blaming(chk, make, blocks, f"io w={w}")
     try:
-        arena.assemble()
         behs = []
         for i in range(count):
             beh = []
@@ -184,7 +186,7 @@ def run(chk: Check, replay=None):
         c08.run_arena(chk, fjm_run, 64, c08.buffer_blocks(rng, 64), True, 300, 3, rng, "buffers")
         c08.run_arena(chk, fjm_run, 32, c08.buffer_blocks(rng, 32), True, 150, 3, rng, "buffers")
     else:
-        run_width(chk, fjm_run, 64, [1, 2, 3, 4, 8, 16], 40000, rng)
+        run_width(chk, fjm_run, 64, [1, 2, 3, 4, 6, 8], 40000, rng)       # sizes in bytes: 2n hex digits / 8n bits must fit the variables
         run_width(chk, fjm_run, 32, [1, 2, 5, 8], 20000, rng)
         c08.run_arena(chk, fjm_run, 64, c08.buffer_blocks(rng, 64), True, 6000, 5, rng, "buffers")
         c08.run_arena(chk, fjm_run, 32, c08.buffer_blocks(rng, 32), True, 3000, 5, rng, "buffers")
